@@ -39,5 +39,47 @@ def Decr (h : H) : Prop := ∀ c d, d ∈ kidsOf h c → d < c
 
 def empty : H := { kids := [], arena := [] }
 
+/-! ### the simulated stack over the heap
+
+The shapes of heap traffic the generator performs (checked syntactically by the translator: I1 — nothing
+writes into `Stack::inner` except `Stack::push` and DUP; I2 — every `borrow_mut()` receiver is a cell
+taken from the stack; I3 — `push` registers unconditionally):
+  * `push ks`     `Stack::push`: a new *arena* cell referencing existing cells, placed on the stack
+  * `dup`         DUP: the top cell once more (an alias, no new cell)
+  * `pop`         a cell leaves the stack (it may stay referenced from other cells or the memo)
+  * `mutate i ks` in-place update of the cell at stack position `i` (APPEND(S), SETITEM(S), ADDITEMS, BUILD):
+                  it may be made to reference any existing cells — itself included
+  * `aux ks`      a cell created outside `push` that never reaches the stack: memo entries
+                  (`StackObjectRef::new(clone)`), the `Global` placeholders and argument tuples of INST/OBJ
+-/
+structure M where
+  h : H := empty
+  stack : List Nat := []
+  deriving Repr
+
+inductive Step
+  | push (ks : List Nat)
+  | dup
+  | pop
+  | mutate (i : Nat) (ks : List Nat)
+  | aux (ks : List Nat)
+  deriving Repr
+
+/-- children must exist; anything else leaves the machine unchanged -/
+def okKids (m : M) (ks : List Nat) : Bool := ks.all (· < m.h.kids.length)
+
+def step (m : M) : Step → M
+  | .push ks => if okKids m ks then { h := alloc m.h ks true, stack := m.h.kids.length :: m.stack } else m
+  | .dup => match m.stack with
+    | [] => m
+    | c :: _ => { m with stack := c :: m.stack }
+  | .pop => { m with stack := m.stack.drop 1 }
+  | .mutate i ks => match m.stack[i]? with
+    | some c => if okKids m ks then { m with h := mutate m.h c ks } else m
+    | none => m
+  | .aux ks => if okKids m ks then { m with h := alloc m.h ks false } else m
+
+def run (steps : List Step) : M := steps.foldl step {}
+
 end Heap
 end PFV
